@@ -8,6 +8,7 @@ import Drv.Wire
 import Drv.Filter
 import Drv.Follow
 import Drv.Copy
+import Drv.Tar
 open Lean Drv
 
 /-- which repairs (`fix:` commits) the model follows; the driver always runs the repaired model,
@@ -31,6 +32,7 @@ def handle (j : Json) : Except String Json := do
   | "followlinks" => hFollow j
   | "dedupe" => hDedupe j
   | "copy" => hCopy j
+  | "tar" => hTar j
   | "metasync" => hMetaSync j
   | "sendproto" => hSendProto j
   | "recvproto" => hRecvProto j
